@@ -52,7 +52,8 @@ SidesA == {<<It(n, c)>> : n \in Names3, c \in Coefs}
           \cup {<<It(n1, c1), It(n2, c2)>> : n1 \in {nA}, n2 \in {nH2O, nCH3S}, c1 \in Coefs, c2 \in Coefs}
 CaseA(s, d, sp) == [kind |-> "print", r |-> [re |-> s, ts |-> <<>>, pr |-> <<It(nB2, cOne)>>],
                     d |-> d, space |-> sp, spd |-> dPlus, rxd |-> dEq, pad |-> <<0, 0, 0>>]
-FamilyA(u) == {CaseA(s, d, sp) : s \in SidesA, d \in 0..3, sp \in BOOLEAN}
+FormatsA == 0..6
+FamilyA(u) == {CaseA(s, d, sp) : s \in SidesA, d \in FormatsA, sp \in BOOLEAN}
 
 \* ---- family B: structure (1-3 distinct species, TS, delimiters, blanks), format .2f
 Pattern(p) == IF HasDot(p) THEN <<FxInt(2), cOne, FxInt(3)>> ELSE <<FxInt(2), cOne, cHalf>>
@@ -82,6 +83,17 @@ CaseE(ns, ts, p, sp) ==
 PairsE == {p \in DelimPairs : ~HasDot(p)}
 FamilyE(u) == {CaseE(ns, ts, p, sp) : ns \in SeqsE, ts \in TSesB, p \in PairsE, sp \in BOOLEAN}
 
+\* ---- family F: the transition state: one or two species, coefficients other than 1 and other
+\* than the products', printed (all delimiter pairs) and hand-written
+TSesF == {<<It(nATS, c)>> : c \in {cOne, FxInt(2), FxInt(3), cHalf, cThreeHalves, cNear3}}
+         \cup {<<It(nATS, c1), It(nCstar, c2)>> : c1 \in {cOne, FxInt(2), cHalf}, c2 \in {cOne, FxInt(3), cThreeHalves}}
+IntOnly(side) == \A i \in 1..Len(side) : side[i].co[2] = 0 /\ side[i].co[3] = 0
+CaseF(ts, p, sp, pad) ==
+   [kind |-> "print", r |-> [re |-> <<It(nA, FxInt(2))>>, ts |-> ts, pr |-> <<It(nB2, cOne), It(nH2O, FxInt(2))>>],
+    d |-> 2, space |-> sp, spd |-> p[1], rxd |-> p[2], pad |-> pad]
+PairsF(ts) == IF IntOnly(ts) THEN DelimPairs ELSE {p \in DelimPairs : ~HasDot(p)}
+FamilyF(u) == UNION {{CaseF(ts, p, sp, pad) : p \in PairsF(ts), sp \in BOOLEAN, pad \in Pads} : ts \in TSesF}
+
 \* ---- family C: hand-written text (integer / decimal / omitted coefficients, repeats)
 Tok(num, gap, nm) == [num |-> num, gap |-> gap, nm |-> nm]
 num2 == <<50>>  num1 == <<49>>  num05 == <<48, 46, 53>>  num250 == <<50, 46, 53, 48>>
@@ -109,6 +121,12 @@ CaseD(s, ts, pad) == [kind |-> "hand",
 PadsD == {<<0, 0, 0>>, <<1, 1, 0>>}
 FamilyD(u) == {CaseD(s, ts, pad) : s \in SidesD, ts \in TSesC, pad \in PadsD}
 
+\* ---- family G: hand-written transition states (1-2 tokens, every numeral, repeats)
+TSesG == {<<t>> : t \in ToksC} \cup {<<t, u>> : t \in ToksC3, u \in ToksC3}
+CaseG(ts, lay) == [kind |-> "hand", toks |-> [re |-> <<Tok(num2, 0, nCstar)>>, ts |-> ts, pr |-> <<Tok(<<>>, 0, nB2)>>],
+                   spd |-> lay[1][1], rxd |-> lay[1][2], pad |-> lay[2]]
+FamilyG(u) == {CaseG(ts, lay) : ts \in TSesG, lay \in LayoutsC(TRUE)}
+
 \* ---- text of a case
 HandStates(t) == LET side(s) == [i \in 1..Len(s) |-> TokenText(s[i])]
                  IN IF Len(t.ts) = 0 THEN <<side(t.re), side(t.pr)>>
@@ -118,15 +136,15 @@ TextOf(cs, variant) ==
    THEN Compose(PrintStates(variant, cs.r, cs.d, cs.space), cs.spd, cs.rxd, cs.pad)
    ELSE Compose(HandStates(cs.toks), cs.spd, cs.rxd, cs.pad)
 
-\* ---- expectations for replay (thousandths; unique because ties are left out)
+\* ---- expectations for replay (millionths; unique because ties are left out)
 SideHasTie(items, d) == \E i \in 1..Len(items) : IsTie(items[i].co, d)
 CaseHasTie(cs) == cs.kind = "print" /\ (SideHasTie(cs.r.re, cs.d) \/ SideHasTie(cs.r.ts, cs.d)
                                        \/ SideHasTie(cs.r.pr, cs.d))
-Thousandths(c) == c[1] * 1000 + c[2] \div 1000000            \* exact for <= 3 decimals
+Millionths(c) == c[1] * 1000000 + c[2] \div 1000            \* exact for <= 6 decimals
 ExpectPrintSide(items, d) == [i \in 1..Len(items) |->
-                                [nm |-> items[i].nm, u |-> RoundTo(items[i].co, d) * PowTen(3 - d)]]
+                                [nm |-> items[i].nm, u |-> RoundTo(items[i].co, d) * PowTen(6 - d)]]
 ExpectHandSide(toks) == LET m == Meaning(toks)
-                        IN [i \in 1..Len(m) |-> [nm |-> m[i].nm, u |-> Thousandths(m[i].co)]]
+                        IN [i \in 1..Len(m) |-> [nm |-> m[i].nm, u |-> Millionths(m[i].co)]]
 Expect(cs) == IF cs.kind = "print"
               THEN [re |-> ExpectPrintSide(cs.r.re, cs.d), ts |-> ExpectPrintSide(cs.r.ts, cs.d),
                     pr |-> ExpectPrintSide(cs.r.pr, cs.d), hasTS |-> Len(cs.r.ts) > 0]
